@@ -14,6 +14,7 @@ import Propka.Model.Angle
 import Propka.Model.Coupling
 import Propka.Model.ResList
 import Propka.Model.ScoringDriver
+import Propka.Model.SetupDriver
 /-! Line-protocol driver: one request per line `<module> <args…>`, one response line each. -/
 open Propka
 
@@ -37,6 +38,7 @@ def dispatch (ws : List String) : String :=
   | "coupling" :: r => Coupling.handle r
   | "reslist" :: r => ResList.handle r
   | "scoring" :: r => Scoring.handle r
+  | "setup" :: r => Setup.handle r
   | ["ping"] => "pong"
   | _ => "bad-op"
 
